@@ -242,6 +242,36 @@ fn base_alphabet() -> Vec<Op> {
 }
 
 
+const RULE_VECBUF: &str = "collection buffers as live blocks: every enabled history over {3 plain allocations, allocate-the-remainder, 10 BumpVec<u8|u64> actions on a live block viewed as a full vector (push, try_push, try_reserve, reserve_exact(700), extend_from_slice_copy, pop + shrink_to_fit, pop + into_boxed_slice, drop; on the newest or the second-newest block), split, scoped, exit} up to the depth bound (quick 4, thorough 5), per configuration and run-parameter set; the buffer the vector ends up with replaces the block in the model and all per-step oracles apply to it; non-trivial = a vector action reallocated (in place or moved)";
+
+/// "a collection buffer" as a live block: blocks are handed to a `BumpVec<u8 | u64>` that pushes, reserves, extends,
+/// shrinks, converts to a box or drops, interleaved with plain allocations, scopes and splits.
+fn vecbuf_alphabet() -> Vec<Op> {
+    let vb = |sel, act, try_| Op::VecBuf { sel, act, try_ };
+    vec![
+        al(3, 1),
+        al(16, 1),
+        al(24, 8),
+        Op::AllocRem { extra: 1, align: 1 },
+        vb(Sel::Newest, VecAct::Push, false),
+        vb(Sel::Second, VecAct::Push, true),
+        vb(Sel::Newest, VecAct::Reserve(5), true),
+        vb(Sel::Newest, VecAct::ReserveExact(700), false),
+        vb(Sel::Second, VecAct::ExtendCopy(9), false),
+        vb(Sel::Newest, VecAct::PopShrinkFit, false),
+        vb(Sel::Second, VecAct::PopShrinkFit, false),
+        vb(Sel::Newest, VecAct::PopIntoBoxed, false),
+        vb(Sel::Newest, VecAct::Drop, false),
+        vb(Sel::Second, VecAct::Drop, false),
+        Op::Split { sel: Sel::Newest },
+        Op::Enter(Region::Scoped),
+        Op::Exit,
+    ]
+}
+fn nontrivial_vecbuf(c: &Cover, h: &[Op]) -> bool {
+    (c.inplace_realloc || c.moved_realloc) && h.iter().any(|o| matches!(o, Op::VecBuf { .. }))
+}
+
 fn nontrivial_c03(c: &Cover, h: &[Op]) -> bool {
     (c.chunk_switch || c.unwound || c.depth2) && h.iter().any(|o| matches!(o, Op::Enter(_) | Op::TryWith { .. } | Op::Reset | Op::ResetToStart))
 }
@@ -346,9 +376,9 @@ pub fn spaces_mode<'a>(prop: &'a str, mode: Mode, deadline: Instant, threads: us
             let ps = params(if thorough { &[Handle::Direct, Handle::WoShrink, Handle::Dyn] } else { &[Handle::Direct, Handle::Dyn] }, &[Ctor::TryNew, Ctor::Unallocated], &[z, og]);
             if mode == Mode::Quick {
                 let core: Vec<Op> = base_alphabet().into_iter().filter(is_core).collect();
-                vec![mk(base_alphabet(), 3, ps.clone(), FaultMode::None, nontrivial_c01, rule, 1000), mk(core, 4, ps, FaultMode::None, nontrivial_c01, rule, 1000)]
+                vec![mk(base_alphabet(), 3, ps.clone(), FaultMode::None, nontrivial_c01, rule, 1000), mk(core, 4, ps.clone(), FaultMode::None, nontrivial_c01, rule, 1000), mk(vecbuf_alphabet(), 4, ps, FaultMode::None, nontrivial_vecbuf, RULE_VECBUF, 1000)]
             } else {
-                vec![mk(base_alphabet(), d(4, 5), ps, FaultMode::None, nontrivial_c01, rule, 1000)]
+                vec![mk(base_alphabet(), d(4, 5), ps.clone(), FaultMode::None, nontrivial_c01, rule, 1000), mk(vecbuf_alphabet(), d(4, 5), ps, FaultMode::None, nontrivial_vecbuf, RULE_VECBUF, 1000)]
             }
         }
         "C02" => {
@@ -393,9 +423,10 @@ pub fn spaces_mode<'a>(prop: &'a str, mode: Mode, deadline: Instant, threads: us
             let ps = params(&[Handle::Direct, Handle::WoShrink, Handle::WoShrinkWoDealloc, Handle::WoDealloc, Handle::RefMut], &[Ctor::TryNew], &[z, og]);
             if mode == Mode::Quick {
                 let core: Vec<Op> = a.iter().copied().filter(|o| is_core(o) || matches!(o, Op::Shrink { align: 32, .. } | Op::Grow { sel: Sel::Second, .. })).collect();
-                vec![mk(a, 3, ps.clone(), FaultMode::None, nontrivial_c01, rule, 1000), mk(core, 4, ps, FaultMode::None, nontrivial_c01, rule, 1000)]
+                let psv = params(&[Handle::Direct, Handle::WoShrink, Handle::WoDealloc], &[Ctor::TryNew], &[z, og]);
+                vec![mk(a, 3, ps.clone(), FaultMode::None, nontrivial_c01, rule, 1000), mk(core, 4, ps, FaultMode::None, nontrivial_c01, rule, 1000), mk(vecbuf_alphabet(), 4, psv, FaultMode::None, nontrivial_vecbuf, RULE_VECBUF, 1000)]
             } else {
-                vec![mk(a, d(4, 5), ps, FaultMode::None, nontrivial_c01, rule, 1000)]
+                vec![mk(a, d(4, 5), ps.clone(), FaultMode::None, nontrivial_c01, rule, 1000), mk(vecbuf_alphabet(), d(4, 5), ps, FaultMode::None, nontrivial_vecbuf, RULE_VECBUF, 1000)]
             }
         }
         "C10" => {
@@ -409,9 +440,9 @@ pub fn spaces_mode<'a>(prop: &'a str, mode: Mode, deadline: Instant, threads: us
             let ps = params(if thorough { &[Handle::Direct, Handle::Dyn, Handle::DynCore, Handle::RefRef] } else { &[Handle::Direct, Handle::DynCore] }, &[Ctor::TryNew, Ctor::Unallocated], &[z, og2]);
             if mode == Mode::Quick {
                 let core: Vec<Op> = a.iter().copied().filter(|o| is_core(o) || matches!(o, Op::Enter(Region::Aligned(16)))).collect();
-                vec![mk(a, 3, ps.clone(), FaultMode::None, nontrivial_c01, rule, 1000), mk(core, 4, ps, FaultMode::None, nontrivial_c01, rule, 1000)]
+                vec![mk(a, 3, ps.clone(), FaultMode::None, nontrivial_c01, rule, 1000), mk(core, 4, ps.clone(), FaultMode::None, nontrivial_c01, rule, 1000), mk(vecbuf_alphabet(), 4, ps, FaultMode::None, nontrivial_vecbuf, RULE_VECBUF, 1000)]
             } else {
-                vec![mk(a, d(4, 5), ps, FaultMode::None, nontrivial_c01, rule, 1000)]
+                vec![mk(a, d(4, 5), ps.clone(), FaultMode::None, nontrivial_c01, rule, 1000), mk(vecbuf_alphabet(), d(4, 5), ps, FaultMode::None, nontrivial_vecbuf, RULE_VECBUF, 1000)]
             }
         }
         "C13" => {
